@@ -3,21 +3,26 @@
 import json, os
 V = os.path.dirname(os.path.abspath(__file__))
 rows = []
+WAVES = '12345678'
 for d in sorted(os.listdir(os.path.join(V, 'seeded'))):
     m = json.load(open(os.path.join(V, 'seeded', d, 'meta.json')))
-    wave = next(w for w in '123456' if ('wave ' + w) in m['origin'])
+    wave = next(w for w in WAVES if ('wave ' + w) in m['origin'])
     v = m['verdicts']
     main = v.get(m['breaks_property'], '')
     rows.append((wave, d, m['breaks_property'], main.startswith('MISSED'), main, {k: x for k, x in v.items() if k != m['breaks_property']}))
-per = {w: (sum(1 for r in rows if r[0] == w), sum(1 for r in rows if r[0] == w and r[3])) for w in '123456'}
+left = [r[1] for r in rows if 'left so' in r[4]]
+per = {w: (sum(1 for r in rows if r[0] == w), sum(1 for r in rows if r[0] == w and r[3])) for w in WAVES}
 total = len(rows); missed = sum(1 for r in rows if r[3])
 out = []
 out.append('''## 9. Seeded changes written by independent sub-agents
 
-Six waves of fresh sub-agents, each given only the text of one property (from
+Eight waves of fresh sub-agents, each given only the text of one property (from
 wave 3 on additionally a one-line hint naming clauses of that same statement
-to aim at, different per wave; in wave 6 the whole property record and one
-assigned mechanism from its anchors to break) and a scratch worktree of `/repo`, produced one
+to aim at, different per wave; in waves 6 and 7 the whole property record and
+one assigned mechanism from its anchors to break, a different one per wave; in
+wave 8 the property record and the instruction to hide the break in an
+uncommon corner of the quantified space - a size, an option value, a kind of
+value, a repeated call) and a scratch worktree of `/repo`, produced one
 change each that breaks the property, compiles and passes the existing tests,
 together with a demonstration test. Each was kept only after `import_seed.sh`
 had confirmed in a fresh worktree: demonstration passes without the patch,
@@ -29,15 +34,18 @@ against it). `seedcheck.sh <name> <PROP>...` re-runs one verdict,
 
 Score: %s = %d changes. %d were reported by the quick tier of the owning
 property's check as it stood when the change arrived; %d were missed (%s).
-Every miss was a gap in workload or oracle rather than in schedule search, was
-closed by extending the check (never by special-casing the change), and all %d
-are now reported by the quick tier. Two of the extensions found defects in the
+Every miss was a gap in workload or oracle rather than in schedule search and
+was closed by extending the check (never by special-casing the change), with
+%s; %d of the %d
+are now reported by the quick tier of the owning check. Two of the extensions found defects in the
 *unmodified* library (section 6 rows 27 and 28); verifying the wave-4 imports
 showed that one earlier repair had made an existing test flaky (row 14).
 
 | wave | change | property | verdict of the owning check (quick tier) |
-|---|---|---|---|''' % (' + '.join(str(per[w][0]) for w in '123456'), total, total - missed, missed,
-         ', '.join('wave %s: %d' % (w, per[w][1]) for w in '123456'), total))
+|---|---|---|---|''' % (' + '.join(str(per[w][0]) for w in WAVES), total, total - missed, missed,
+         ', '.join('wave %s: %d' % (w, per[w][1]) for w in WAVES),
+         ('%d exception%s (%s: a pure data race with no effect at the granularity the simulator interleaves, reported by the race build of C13 instead)' % (len(left), '' if len(left) == 1 else 's', ', '.join('`%s`' % d for d in left))) if left else 'no exception',
+         total - len(left), total))
 for wave, d, prop, m, main, others in rows:
     out.append('| %s | `%s` | %s | %s |' % (wave, d, prop, main.replace('|', '\\|')))
 out.append('''
@@ -50,7 +58,9 @@ files):
   untyped nil (C12, twice); Force pushes never on a queue-options deque (C06);
   `Extend`/`Equal` arguments that are always throw-away sets (C18); every
   blocking call made with a cancellable context, whose end-of-call `cancel()`
-  wakes all waiters as a side effect and so papers over missing signals (C07).
+  wakes all waiters as a side effect and so papers over missing signals (C07);
+  no panic whose value is the very error `ExcludedErrors` lists (C03, wave 7);
+  no leaf that is a non-nil error reporting `Ok()` of itself (C12, wave 7).
 * **operations missing from the concurrent mix**: no sorts in the concurrent
   Set histories (C18); no parked iterators next to blocked producers (C07); no
   `Close` racing the adds of an iterated container (C20); no `Wait` landing
@@ -65,7 +75,11 @@ files):
   C03); no source that had been advanced before it was wrapped (C04); group
   members that are always fresh (C11); work always launched with the same live
   context the waiters use (C14, C15); subscribers that never take their time
-  (C08); a queue never closed before its removals had finished (C20).
+  (C08); a queue never closed before its removals had finished (C20); outputs
+  drained with `ReadOne` only, never with the two-call `Next()`/`Value()` loop
+  (C01, wave 7); every read of a pipeline made with the same long-lived
+  context, never with a per-call context that ends while a user function is
+  failing (C02, wave 7).
 * **oracle narrower than the statement**: only calls *invoked after* the last
   `Limit` execution were compared with its result (C15); under removals the
   iterator was only required not to panic and to return on Close/cancel, not
@@ -74,7 +88,11 @@ files):
   exact state: operations still blocked at quiescence become observations that
   must be consistent with every linearization); a busy loop after shutdown
   only ever exhausted the step budget, which is inconclusive - C09 now has a
-  bounded-liveness clause for the phase after the faults have stopped.
+  bounded-liveness clause for the phase after the faults have stopped; under
+  removals a blocking container iterator was allowed to end early, and one
+  parked with an unseen item was given a further Add before being judged,
+  which is what un-sticks the seeded change (C20, wave 7, twice - now judged
+  at quiescence as the statement words it).
 
 Cross-property verdicts (a change reported by a check other than its own, or
 explicitly not): ''' + '; '.join('`%s`: %s' % (d, ', '.join('%s %s' % (k, x) for k, x in o.items())) for _, d, _, _, _, o in rows if o) + '.')
